@@ -5,6 +5,7 @@ package main
 import (
 	"encoding/json"
 	"fmt"
+	"go/types"
 	"os"
 	"path/filepath"
 	"sort"
@@ -350,6 +351,7 @@ func writeReplay(w *World, prop string, x *Result) (string, bool) {
 		"obligation": x.Obl.Name,
 		"kind":       x.Obl.Kind,
 		"function":   x.Obl.Func,
+		"function_key": replayKey(x),
 		"position":   x.Obl.Pos,
 		"clause":     x.Obl.Src,
 		"status":     x.Status,
@@ -369,3 +371,83 @@ func writeReplay(w *World, prop string, x *Result) (string, bool) {
 }
 
 // tryReplay is implemented in replay.go.
+
+func replayKey(x *Result) string {
+	if x.vcReplay != nil && x.vcReplay.fn != nil {
+		return funcKey(x.vcReplay.fn)
+	}
+	return ""
+}
+
+// runReplayCmd re-runs a recorded counterexample against the current tree.
+func runReplayCmd(repo, path string) int {
+	b, err := os.ReadFile(path)
+	if err != nil {
+		fmt.Fprintln(os.Stderr, err)
+		return 2
+	}
+	var rec struct {
+		Obligation  string `json:"obligation"`
+		Kind        string `json:"kind"`
+		FunctionKey string `json:"function_key"`
+		Replay      struct {
+			Inputs    []*node `json:"inputs"`
+			Predicted []*node `json:"predicted_results"`
+			Status    string  `json:"status"`
+		} `json:"replay"`
+	}
+	if err := json.Unmarshal(b, &rec); err != nil {
+		fmt.Fprintln(os.Stderr, err)
+		return 2
+	}
+	fmt.Printf("obligation: %s\nrecorded: %s\n", rec.Obligation, rec.Replay.Status)
+	if rec.FunctionKey == "" || rec.Replay.Inputs == nil {
+		fmt.Println("no concrete input recorded (no-failing-input-found); the file carries the solver output")
+		return 1
+	}
+	w, err := LoadWorld(repo)
+	if err != nil {
+		fmt.Fprintln(os.Stderr, err)
+		return 2
+	}
+	fn := w.findFunc(rec.FunctionKey)
+	if fn == nil {
+		fmt.Println("function not found:", rec.FunctionKey)
+		return 2
+	}
+	dir, _ := os.MkdirTemp("", "govc-replay-")
+	defer os.RemoveAll(dir)
+	dyn := map[string]types.Type{}
+	for _, t := range w.tagTypes {
+		dyn[typeStr(t)] = t
+	}
+	out, err := runReplayTest(w, fn, rec.Replay.Inputs, dir, map[string]types.Type{})
+	if err != nil {
+		fmt.Println("replay failed to run:", err)
+		return 2
+	}
+	ob, _ := json.Marshal(out)
+	fmt.Println("observed now:", string(ob))
+	if p, _ := out["panic"].(string); p != "" {
+		fmt.Println("REPRODUCED: panic:", p)
+		return 1
+	}
+	obs, _ := out["results"].([]any)
+	same := len(obs) == len(rec.Replay.Predicted) && len(obs) > 0
+	for k := range obs {
+		if !same {
+			break
+		}
+		pj, _ := json.Marshal(scalarView(rec.Replay.Predicted[k]))
+		oj, _ := json.Marshal(obs[k])
+		if string(pj) != string(oj) {
+			same = false
+		}
+	}
+	if same {
+		fmt.Println("REPRODUCED: the function still returns the counterexample's result")
+		return 1
+	}
+	fmt.Println("not reproduced on the current tree")
+	return 0
+}
